@@ -468,3 +468,96 @@ Proof.
   - left. split; [now apply in_range_R | reflexivity].
   - right. split; [now apply in_range_R_false | reflexivity].
 Qed.
+
+(* ------------------------------------------------------------------ Companion + RAOP on one dispatcher *)
+
+Lemma xstep_events s o : Forall good_event (snd (xstep DR s o)).
+Proof.
+  destruct o as [level| | | |f| | | |i]; cbn [xstep].
+  - destruct (in_range DR level) eqn:G; cbn [snd].
+    + constructor; [|constructor]. now apply in_range_R in G.
+    + constructor; [reflexivity | constructor].
+  - constructor; [exact I | constructor].
+  - constructor; [exact I | constructor].
+  - destruct (in_range DR (cvol DR s)) eqn:G; cbn [snd].
+    + constructor; [|constructor]. now apply in_range_R in G.
+    + constructor; [reflexivity | constructor].
+  - constructor.
+  - constructor.
+  - constructor.
+  - pose proof (rstep_events (xr DR s) (@RPump DR)) as H.
+    destruct (rstep DR (xr DR s) (@RPump DR)) as [r ev]. exact H.
+  - pose proof (rstep_events (xr DR s) (@RStream DR i)) as H.
+    destruct (rstep DR (xr DR s) (@RStream DR i)) as [r ev]. exact H.
+Qed.
+
+Lemma xrun_events ops : forall s, Forall (Forall good_event) (xrun DR s ops).
+Proof.
+  induction ops as [|o t IH]; intros s; cbn [xrun].
+  - constructor.
+  - pose proof (xstep_events s o) as H. destruct (xstep DR s o) as [s' ev]. constructor; [exact H | apply IH].
+Qed.
+
+(* the hop through the dispatcher: a level the device reports (as a fraction f) is what RaopAudio
+   sends to the receiver at the next stream start - rnd(f*100) percent, within 2^-43 - whatever
+   initial level the receiver advertises ... *)
+Lemma cross_forward f i :
+  pct_ok (rnd (f * 100)) ->
+  exists evp d y d',
+    xrun DR (xinit DR) [@XReport DR f; @XPump DR; @XStream DR i] = [[]; evp; [@Fwd DR y; @Dev DR d']] /\
+    ~ (exists e, In (@Exc DR e) evp) /\ In (@Echo DR d) evp /\
+    dbfs_good d /\ dbfs_good d' /\ Rabs (y - rnd (f * 100)) <= bpow radix2 (-43).
+Proof.
+  intros Hv. set (v := rnd (f * 100)) in *.
+  destruct (pct_to_dbfs_total v Hv) as (d & Ed & Gd).
+  destruct (dbfs_to_pct_total d (dbfs_good_le0 _ Gd)) as (y & Ey & Gy).
+  set (s1 := Build_rstate DR (Some d) [] v).
+  destruct (raop_set_bound s1 y Gy) as (d' & y' & E2 & Gd' & _ & _ & _).
+  exists ((if deq DR v (zero DR) then [] else [@Push DR (zero DR) v]) ++ [@Echo DR d]), d, y, d'.
+  split; [|split; [|split; [|split; [|split]]]].
+  - cbn [xrun xstep rstep announce xinit rinit xr cvol pend ctx fvol app deliver_all].
+    change (dmul DR f (dZ DR 100)) with v.
+    unfold deliver. cbn [fvol pend ctx]. rewrite Ed. cbn [app].
+    rewrite app_nil_r.
+    assert (ES : rstream DR s1 i = raop_set DR s1 y).
+    { apply rstream_resend; [exact Ey | now left | intros H; discriminate H]. }
+    unfold s1 in ES. cbn [xr cvol]. rewrite ES. fold s1. rewrite E2. reflexivity.
+  - intros (e & He). apply in_app_or in He. destruct He as [He|[He|[]]]; [|discriminate].
+    destruct (deq DR v (zero DR)); [destruct He | destruct He as [He|[]]; discriminate].
+  - apply in_or_app. right. now left.
+  - exact Gd.
+  - exact Gd'.
+  - destruct (Req_EM_T v 0) as [Z|NZ].
+    + rewrite Z in *. rewrite pct_to_dbfs_R in Ed. destruct (Req_EM_T 0 0); [|contradiction].
+      injection Ed as <-. cbn [raop_volume] in Ey. rewrite dbfs_to_pct_R in Ey.
+      destruct (Rlt_dec (-144) (-30)); [|lra]. injection Ey as <-.
+      rewrite Rminus_0_r, Rabs_R0. apply bpow_ge_0.
+    + apply (roundtrip_bound v d y); try assumption. unfold pct_ok in Hv. lra.
+Qed.
+
+(* ... and a report outside [0,100] percent is NOT taken over: the listener's failure is swallowed,
+   the stored level is untouched, the next stream starts from the default *)
+Lemma cross_rejected f :
+  ~ pct_ok (rnd (f * 100)) ->
+  exists evp d,
+    xrun DR (xinit DR) [@XReport DR f; @XPump DR; @XStream DR None] = [[]; evp; [@Fwd DR 33; @Dev DR d]] /\
+    In (@Swallowed DR ValueError) evp /\ (forall d0, ~ In (@Echo DR d0) evp) /\ dbfs_good d.
+Proof.
+  intros Hv. set (v := rnd (f * 100)) in *.
+  destruct (pct_to_dbfs_cases v) as [[H _]|[_ Ed]]; [contradiction|].
+  set (s1 := Build_rstate DR None [] v).
+  assert (G33 : pct_ok 33) by (unfold pct_ok; lra).
+  destruct (raop_set_bound s1 33 G33) as (d & y & E2 & Gd & _ & _ & _).
+  exists ((if deq DR v (zero DR) then [] else [@Push DR (zero DR) v]) ++ [@Swallowed DR ValueError]), d.
+  split; [|split; [|split]].
+  - cbn [xrun xstep rstep announce xinit rinit xr cvol pend ctx fvol app deliver_all].
+    change (dmul DR f (dZ DR 100)) with v.
+    unfold deliver. cbn [fvol pend ctx]. rewrite Ed. cbn [app]. rewrite app_nil_r.
+    assert (ES : rstream DR s1 None = raop_set DR s1 33).
+    { apply rstream_resend; [reflexivity | now right | reflexivity]. }
+    unfold s1 in ES. cbn [xr cvol]. rewrite ES. fold s1. rewrite E2. reflexivity.
+  - apply in_or_app. right. now left.
+  - intros d0 He. apply in_app_or in He. destruct He as [He|[He|[]]]; [|discriminate].
+    destruct (deq DR v (zero DR)); [destruct He | destruct He as [He|[]]; discriminate].
+  - exact Gd.
+Qed.
